@@ -38,8 +38,8 @@ TIERS = {
                   native=(240, 12), native_intern=(80, 10), limbo_log=300, vacuity=False, timeout=900,
                   focus=[(("TA",), 9, RECYCLE_KINDS, 2)]),
     "thorough": dict(deep=6, emit=5, emit_all=3, intern=4, sim=(20, 300), sim_intern=(12, 60),
-                     native=(4000, 16), native_intern=(1200, 14), limbo_log=4000, vacuity=True, timeout=3000,
-                     focus=[(("TA", "RED"), 6, (), 1), (("TA",), 7, (), 1), (("TA", "RED"), 7, RECYCLE_KINDS, 2),
+                     native=(3000, 16), native_intern=(800, 14), limbo_log=3000, vacuity=True, timeout=5400,
+                     focus=[(("TA", "RED"), 6, (), 1), (("TA", "RED"), 7, RECYCLE_KINDS, 2),
                             (("TA",), 11, RECYCLE_KINDS, 2)]),
 }
 
@@ -92,8 +92,19 @@ class Ctx:
 
 def work_replay_raw(job):
     lens, lines, want_log = job
-    recs = [r for r in (tlc.parse_line(x) for x in lines) if r is not None and "acts" in r]
-    return consdriver.work_replay((lens, recs, want_log))
+    recs = []
+    broken = 0
+    for x in lines:
+        try:
+            r = tlc.parse_line(x)
+        except ValueError:
+            broken += 1        # a line cut short because TLC was stopped at its timeout
+            continue
+        if r is not None and "acts" in r:
+            recs.append(r)
+    res = consdriver.work_replay((lens, recs, want_log))
+    res["broken_lines"] = broken
+    return res
 
 
 def model_run(ctx, name, cfgtext, workers, timeout, expect_violation=None):
@@ -147,6 +158,7 @@ def replay_run(ctx, name, lens, cfgtext, pool, workers, timeout, simulate=None, 
                 for k, v in res["skips"].items():
                     ctx.skips[k] += v
                 ctx.counts["addresses_recycled"] += res.get("recycled", 0)
+                ctx.counts["broken_lines"] += res.get("broken_lines", 0)
                 for v in res["violations"]:
                     v["engine"] = "replay:" + name
                     ctx.viol.append(v)
@@ -350,7 +362,7 @@ def run(tier):
                                                invariants=["NoStale"]), 4, T, "NoStale"))
             # S->C exhaustive
             jobs.append(ex.submit(replay_run, ctx, "terms", "terms", make_cfg(depth=P["emit"], emit=P["emit"]),
-                                  pool_t, 6, T, None, (), P["limbo_log"]))
+                                  pool_t, 6 if tier == "quick" else 10, T, None, (), P["limbo_log"]))
             jobs.append(ex.submit(replay_run, ctx, "terms_all_interps", "terms",
                                   make_cfg(depth=P["emit_all"], emit=P["emit_all"], interp="all"), pool_t, 4, T))
             jobs.append(ex.submit(replay_run, ctx, "interned", "interned",
@@ -378,14 +390,20 @@ def run(tier):
             jobs.append(ex.submit(native_logs, ctx, "terms", pool_t, P["native"][0], P["native"][1], 8))
             jobs.append(ex.submit(native_logs, ctx, "interned", pool_i, P["native_intern"][0], P["native_intern"][1], 2))
             for j in jobs:
-                j.result()
+                try:
+                    j.result()
+                except Exception as e:
+                    ctx.machinery("job", "%r" % (e,))
         # C->S
         with ThreadPoolExecutor(3) as ex:
             jobs = [ex.submit(trace_validation, ctx, "terms", ctx.logs["terms"], 10, T),
                     ex.submit(trace_validation, ctx, "interned", ctx.logs["interned"], 3, T),
                     ex.submit(self_test, ctx, "terms", ctx.logs["terms"])]
             for j in jobs:
-                j.result()
+                try:
+                    j.result()
+                except Exception as e:
+                    ctx.machinery("job", "%r" % (e,))
     finally:
         pool_t.terminate()
         pool_i.terminate()
